@@ -239,6 +239,30 @@ def history_cases(seed, count, max_side, tag, thr=None):
         yield flow_case("%s-%d-%d" % (tag, seed, i), g, steps)
 
 
+def lowest_probe_cases(seed, tag, count=8):
+    """Known finding F16: fields in which several nodes hold numeric_limits<double>::lowest().  One fixed world on
+    which it shows (three adjacent base levels at that value on a mesh) plus random ones."""
+    rng = random.Random(seed)
+    lo = "-1.7976931348623157e308"
+    fixed = dict(t="mesh", pts=[[0, 0], [4, 0], [8, 0], [12, 0], [0, 4], [4, 4], [8, 4], [12, 4], [0, 8], [4, 8], [8, 8], [12, 8]],
+                 tri=[[1, 0, 4], [1, 4, 5], [1, 5, 2], [2, 6, 5], [2, 3, 6], [3, 6, 7], [4, 5, 8], [5, 9, 8], [6, 9, 5], [10, 7, 6], [7, 10, 11]],
+                 st="default")
+    fz = dict(k="lit", v=[lo, "1", "3", "2", lo, lo, "0", lo, lo, "1", "3", "0"], m=[0] * 12, e=0)
+    worlds = [(fixed, fz, [0] * 12, [8, 4, 0])]
+    for _ in range(count - 1):
+        g, z, mask, bl = _world(rng, 4, kinds=("raster", "raster", "mesh"), family="lowest")
+        worlds.append((g, z, mask, bl))
+    seqs = [[gen.op_single(), gen.op_mst("kruskal", "carve")], [gen.op_single(), gen.op_mst("kruskal", "basic")],
+            [gen.op_single(), gen.op_mst("boruvka", "carve")], [gen.op_single(), gen.op_mst("kruskal", "carve"), gen.op_single()]]
+    for i, (g, z, mask, bl) in enumerate(worlds):
+        steps = []
+        for k, ops in enumerate(seqs):
+            steps += steps_for_graph(k, ops, mask, bl, z) + [dict(op="drop", g=k)]
+        steps += [dict(op="new", g=9, ops=[gen.op_single()]), dict(op="mask", g=9, m=mask), dict(op="bl", g=9, bl=bl),
+                  dict(op="update", g=9, z=z), dict(op="bgraph", g=9, m="kruskal"), dict(op="bgraph", g=9, m="boruvka"), dict(op="drop", g=9)]
+        yield flow_case("%s-F16-%d" % (tag, i), g, steps)
+
+
 def wrap_cases(seed, tag, widths=(8, 16), deltas=(-2, -1, 0, 1, 2)):
     """Long call histories on one object: a depression node stays masked during 2^w + delta consecutive
     update_routes calls (all but the first unlogged: 'burn'), is then unmasked, and the observation must be the
@@ -447,7 +471,7 @@ def basin_graph_cases(seed, count, max_side, tag, high_degree=0):
         n = gen.grid_size(g)
         steps = [dict(op="new", g=0, ops=[gen.op_single()])]
         for rep in range(3):
-            z = gen.rand_field(rng, g, rng.choice(["tied", "tied", "tied3", "bowl", "distinct", "flat", "sub", "lowest"]))
+            z = gen.rand_field(rng, g, rng.choice(["tied", "tied", "tied3", "bowl", "distinct", "flat", "sub"]))
             mask, bl = gen.rand_mask_bl(rng, g, p_bl=0.1)
             steps += [dict(op="mask", g=0, m=mask), dict(op="bl", g=0, bl=bl), dict(op="update", g=0, z=z),
                       dict(op="bgraph", g=0, m="kruskal"), dict(op="bgraph", g=0, m="boruvka")]
